@@ -355,6 +355,16 @@ def post(acct, amount, comm=""):
     return {"acct": acct, "amount": amount, "unit": unit, "comment": None}
 
 
+def close_txn(t, last_acct):
+    """balance the transaction with an amount-less last posting, unless its postings already add up to zero
+    (a zero last posting is rejected)"""
+    if sum((D(p["amount"]) for p in t["posts"]), D(0)) == 0:
+        t["last"] = None
+    else:
+        t["last"] = {"acct": last_acct, "comment": None}
+    return t
+
+
 class C17(PropBase):
     id = "C17"
 
@@ -613,8 +623,7 @@ class C17(PropBase):
             t["posts"] = [post("r:acc", a, tc) for a in amounts[i:i + n]]
             if rng.random() < 0.3:
                 t["posts"].append(post("r:other", rng.choice(amounts), tc))
-            t["last"] = {"acct": rng.choice(["q", "q", "r"]), "comment": None}
-            txns.append(t)
+            txns.append(close_txn(t, rng.choice(["q", "q", "r"])))
             i += n
         rng.shuffle(txns)
         sel_reg = rng.choice([None, None, ["r:acc"], ["r:acc", "r:other"], ["q"]])
@@ -642,8 +651,7 @@ class C17(PropBase):
             if one_txn:
                 t = plain_header(rng, y, mo, d0)
                 t["posts"] = [post("p:c%d" % i, a, comm) for i, a in enumerate(amounts)]
-                t["last"] = {"acct": "q", "comment": None}
-                txns.append(t)
+                txns.append(close_txn(t, "q"))
             else:
                 same_acct = rng.random() < 0.3     # the account sum of one child is the chain's total
                 for i, a in enumerate(amounts):
